@@ -67,6 +67,18 @@ def run_cases(plain, cases_, workdir, tag):
         for c, r in group[1:]:
             if r["rest"] != r0["rest"]:
                 r["rest_differs"] = "the part of the module outside the struct definitions differs between option sets %s and %s" % (c0["opts"], c["opts"])
+        # ... and the fields of the structs (names, types) are a function of the shader and `matrix_vector_types` alone:
+        # no derive switch changes them
+        by_mv = {}
+        for c, r in group:
+            if r.get("struct_fields") is not None:
+                by_mv.setdefault(c["opts"].get("mv", "Rust"), []).append((c, r))
+        for g2 in by_mv.values():
+            c0, r0 = g2[0]
+            for c, r in g2[1:]:
+                if r["struct_fields"] != r0["struct_fields"] and not r.get("rest_differs"):
+                    r["rest_differs"] = ("the struct fields differ between option sets %s and %s that select the same representation: %s / %s"
+                                         % (c0["opts"], c["opts"], r0["struct_fields"][:300], r["struct_fields"][:300]))
     return res
 
 
